@@ -1,6 +1,7 @@
 CONSTANTS
   N = 4
   NC = 2
+  IdOf <- IdPos
   UseZip = TRUE
 SPECIFICATION Spec
 INVARIANT Attribution
